@@ -15,15 +15,17 @@ package appencryption
 
 //@ iface AEAD.Decrypt
 //@   names data, key
-//@   modifies ext_calls
+//@   modifies ext_calls, mk_calls, lcalls
 //@   ensures ext_calls == old(ext_calls) + 1
+//@   ensures mk_calls == old(mk_calls) && lcalls == old(lcalls)
 //@   ensures err != nil ==> len(result) == 0
 //@   ensures result == nil || fresh(result)
 
 //@ iface AEAD.Encrypt
 //@   names data, key
-//@   modifies ext_calls
+//@   modifies ext_calls, mk_calls, lcalls
 //@   ensures ext_calls == old(ext_calls) + 1
+//@   ensures mk_calls == old(mk_calls) && lcalls == old(lcalls)
 //@   ensures err != nil ==> len(result) == 0
 //@   ensures result == nil || fresh(result)
 
@@ -31,22 +33,24 @@ package appencryption
 
 //@ func decryptRow$1
 //@   facet C10
-//@   modifies ext_calls
+//@   modifies ext_calls, mk_calls, lcalls
 //@   ensures [C10:rawdrk-wiped] forall i int :: 0 <= i && i < len(ret(Decrypt, 1, 0)) ==> ret(Decrypt, 1, 0)[i] == 0
 
 // ---- KMS (interface contract; fault-inclusive) ----
 
 //@ iface KeyManagementService.DecryptKey
 //@   names ctx, key
-//@   modifies ext_calls
+//@   modifies ext_calls, mk_calls, lcalls
 //@   ensures ext_calls == old(ext_calls) + 1
+//@   ensures mk_calls == old(mk_calls) + 1 && lcalls == old(lcalls)
 //@   ensures err != nil ==> len(result) == 0
 //@   ensures result == nil || fresh(result)
 
 //@ iface KeyManagementService.EncryptKey
 //@   names ctx, key
-//@   modifies ext_calls
+//@   modifies ext_calls, mk_calls, lcalls
 //@   ensures ext_calls == old(ext_calls) + 1
+//@   ensures mk_calls == old(mk_calls) + 1 && lcalls == old(lcalls)
 //@   ensures err != nil ==> len(result) == 0
 //@   ensures result == nil || fresh(result)
 
@@ -55,7 +59,7 @@ package appencryption
 //@ func (*envelopeEncryption).systemKeyFromEKR
 //@   facet C10, C02, C09
 //@   requires wfE(e) && ekr != nil
-//@   modifies ext_calls, live
+//@   modifies ext_calls, mk_calls, lcalls, live
 //@   ensures [C09:only-the-returned-key-s-secret-is-new] forall s securememory.Secret :: live(s) && !old(live(s)) ==> fresh(s) && err == nil && s == result.secret
 //@   ensures [C09:nothing-released] forall s securememory.Secret :: old(live(s)) ==> live(s)
 //@   ensures (err == nil) == (result != nil)
@@ -66,7 +70,7 @@ package appencryption
 //@   facet C10, C02, C09
 //@   ensures [C09:references-balanced] forall k *cachedCryptoKey :: owed(k) == old(owed(k))
 //@   requires wfE(e) && sk != nil && ekr != nil
-//@   modifies ext_calls, ms, owed, live, cacheowned
+//@   modifies ext_calls, mk_calls, lcalls, ms, owed, live, cacheowned
 //@   ensures [C09:no-stray-secret] forall s securememory.Secret :: live(s) && !old(live(s)) ==> fresh(s) && (cacheowned(s) || (err == nil && s == result.secret))
 //@   ensures [C09:cache-ownership-is-kept] forall s securememory.Secret :: old(cacheowned(s)) ==> cacheowned(s)
 //@   ensures [C09:only-new-secrets-become-cache-owned] forall s securememory.Secret :: cacheowned(s) && !old(cacheowned(s)) ==> fresh(s)
@@ -82,7 +86,8 @@ package appencryption
 //@ spec fn loaderExact(f ref) bool
 //@ funcspec keyLoader
 //@   names meta
-//@   modifies ms, ext_calls, owed, live, cacheowned
+//@   modifies ms, ext_calls, mk_calls, lcalls, owed, live, cacheowned
+//@   ghost ensures lcalls == old(lcalls) + 1 && mk_calls >= old(mk_calls)
 //@   ensures [C09:loader-leaves-no-stray-secret] forall s securememory.Secret :: live(s) && !old(live(s)) ==> fresh(s) && (cacheowned(s) || (err == nil && s == result.secret))
 //@   ensures [C09:cache-ownership-is-kept] forall s securememory.Secret :: old(cacheowned(s)) ==> cacheowned(s)
 //@   ensures [C09:only-new-secrets-become-cache-owned] forall s securememory.Secret :: cacheowned(s) && !old(cacheowned(s)) ==> fresh(s)
@@ -104,8 +109,8 @@ package appencryption
 //@   ghost ensures err == nil ==> owed(result) == old(owed(result)) + 1
 //@   ghost ensures forall k *cachedCryptoKey :: k != result || err != nil ==> owed(k) == old(owed(k))
 //@   requires [C02,C14:loader-fits-id] loaderFor(loader, id.ID) && (id.Created != 0 ==> loaderExact(loader))
-//@   modifies ext_calls, ms
-//@   ghost ensures ext_calls > old(ext_calls)
+//@   modifies ext_calls, mk_calls, lcalls, ms
+//@   ghost ensures ext_calls > old(ext_calls) && mk_calls >= old(mk_calls) && lcalls >= old(lcalls)
 //@   ensures msGrows(old(ms), ms)
 //@   ensures (err == nil) == (result != nil)
 //@   ensures err == nil ==> wfCK(result) && ms[id.ID][result.CryptoKey.created]
@@ -121,8 +126,8 @@ package appencryption
 //@   ghost ensures err == nil ==> owed(result) == old(owed(result)) + 1
 //@   ghost ensures forall k *cachedCryptoKey :: k != result || err != nil ==> owed(k) == old(owed(k))
 //@   requires [C02,C14:loader-fits-id] loaderFor(loader, id)
-//@   modifies ext_calls, ms
-//@   ghost ensures ext_calls > old(ext_calls)
+//@   modifies ext_calls, mk_calls, lcalls, ms
+//@   ghost ensures ext_calls > old(ext_calls) && mk_calls >= old(mk_calls) && lcalls >= old(lcalls)
 //@   ensures msGrows(old(ms), ms)
 //@   ensures (err == nil) == (result != nil)
 //@   ensures err == nil ==> wfCK(result) && ms[id][result.CryptoKey.created]
@@ -180,6 +185,9 @@ package appencryption
 
 // every external lookup bumps ext_calls: a rejected record must be rejected before any of them
 //@ ghost var ext_calls int
+// mk_calls: calls to the metastore and the KMS; lcalls: invocations of key loaders (C20)
+//@ ghost var mk_calls int
+//@ ghost var lcalls int
 
 //@ func (*envelopeEncryption).DecryptDataRowRecord
 //@   facet C06, C07, C09
@@ -204,22 +212,25 @@ package appencryption
 // Store returning true means the row is there; nothing is promised when it returns false (duplicate, lost write, error).
 //@ iface Metastore.Load
 //@   names ctx, keyID, created
-//@   modifies ext_calls, ms
+//@   modifies ext_calls, mk_calls, lcalls, ms
 //@   ensures ext_calls == old(ext_calls) + 1
+//@   ensures mk_calls == old(mk_calls) + 1 && lcalls == old(lcalls)
 //@   ensures msGrows(old(ms), ms)
 //@   ensures err == nil && result != nil ==> result.Created == created && ms[keyID][created]
 
 //@ iface Metastore.LoadLatest
 //@   names ctx, keyID
-//@   modifies ext_calls, ms
+//@   modifies ext_calls, mk_calls, lcalls, ms
 //@   ensures ext_calls == old(ext_calls) + 1
+//@   ensures mk_calls == old(mk_calls) + 1 && lcalls == old(lcalls)
 //@   ensures msGrows(old(ms), ms)
 //@   ensures err == nil && result != nil ==> ms[keyID][result.Created]
 
 //@ iface Metastore.Store
 //@   names ctx, keyID, created, envelope
-//@   modifies ext_calls, ms
+//@   modifies ext_calls, mk_calls, lcalls, ms
 //@   ensures ext_calls == old(ext_calls) + 1
+//@   ensures mk_calls == old(mk_calls) + 1 && lcalls == old(lcalls)
 //@   ensures msGrows(old(ms), ms)
 //@   ensures result ==> ms[keyID][created]
 
@@ -230,7 +241,7 @@ package appencryption
 //@   ensures [C09:references-balanced] forall k *cachedCryptoKey :: owed(k) == old(owed(k))
 //@   safety C07
 //@   requires wfE(e)
-//@   modifies ext_calls, ms, owed, live, cacheowned
+//@   modifies ext_calls, mk_calls, lcalls, ms, owed, live, cacheowned
 //@   ensures [C09:no-stray-secret] forall s securememory.Secret :: live(s) && !old(live(s)) ==> fresh(s) && (cacheowned(s) || (err == nil && s == result.secret))
 //@   ensures [C09:cache-ownership-is-kept] forall s securememory.Secret :: old(cacheowned(s)) ==> cacheowned(s)
 //@   ensures [C09:only-new-secrets-become-cache-owned] forall s securememory.Secret :: cacheowned(s) && !old(cacheowned(s)) ==> fresh(s)
@@ -244,7 +255,7 @@ package appencryption
 //@   ensures [C09:references-balanced] forall k *cachedCryptoKey :: owed(k) == old(owed(k))
 //@   safety C07
 //@   requires wfE(e)
-//@   modifies ext_calls, ms, owed, live
+//@   modifies ext_calls, mk_calls, lcalls, ms, owed, live
 //@   ensures [C09:only-the-returned-key-s-secret-is-new] forall s securememory.Secret :: live(s) && !old(live(s)) ==> fresh(s) && err == nil && s == result.secret
 //@   ensures [C09:nothing-released] forall s securememory.Secret :: old(live(s)) ==> live(s)
 //@   ensures [C02:ms-only-grows] msGrows(old(ms), ms)
@@ -297,7 +308,7 @@ package appencryption
 //@   facet C02, C14, C09
 //@   ensures [C09:references-balanced] forall k *cachedCryptoKey :: owed(k) == old(owed(k))
 //@   requires wfE(e)
-//@   modifies ext_calls, ms, owed, live
+//@   modifies ext_calls, mk_calls, lcalls, ms, owed, live
 //@   ensures [C09:only-the-returned-key-s-secret-is-new] forall s securememory.Secret :: live(s) && !old(live(s)) ==> fresh(s) && err == nil && s == result.secret
 //@   ensures [C09:nothing-released] forall s securememory.Secret :: old(live(s)) ==> live(s)
 //@   ensures [C02:ms-only-grows] msGrows(old(ms), ms)
@@ -315,7 +326,7 @@ package appencryption
 //@   facet C02, C14, C09
 //@   ensures [C09:references-balanced] forall k *cachedCryptoKey :: owed(k) == old(owed(k))
 //@   requires wfE(e)
-//@   modifies ext_calls, ms, owed, live, cacheowned
+//@   modifies ext_calls, mk_calls, lcalls, ms, owed, live, cacheowned
 //@   ensures [C09:unsaved-key-released] ret(GenerateKey, 1, 1) == nil && (err != nil || result != ret(GenerateKey, 1, 0)) ==> !live(ret(GenerateKey, 1, 0).secret)
 //@   ensures [C09:no-stray-secret] forall s securememory.Secret :: live(s) && !old(live(s)) ==> fresh(s) && (cacheowned(s) || (err == nil && s == result.secret))
 //@   ensures [C09:cache-ownership-is-kept] forall s securememory.Secret :: old(cacheowned(s)) ==> cacheowned(s)
@@ -328,7 +339,7 @@ package appencryption
 //@   facet C02, C14, C09
 //@   ensures [C09:references-balanced] forall k *cachedCryptoKey :: owed(k) == old(owed(k))
 //@   requires wfE(e)
-//@   modifies ext_calls, ms, owed, live, cacheowned
+//@   modifies ext_calls, mk_calls, lcalls, ms, owed, live, cacheowned
 //@   ensures [C09:no-stray-secret] forall s securememory.Secret :: live(s) && !old(live(s)) ==> fresh(s) && (cacheowned(s) || (err == nil && s == result.secret))
 //@   ensures [C09:cache-ownership-is-kept] forall s securememory.Secret :: old(cacheowned(s)) ==> cacheowned(s)
 //@   ensures [C09:only-new-secrets-become-cache-owned] forall s securememory.Secret :: cacheowned(s) && !old(cacheowned(s)) ==> fresh(s)
@@ -427,9 +438,13 @@ package appencryption
 //@ immutable (keyCache).keys, (keyCache).latest, (keyCache).policy
 
 //@ func (*keyCache).GetOrLoad
-//@   facet C09, C02, C14, C07, C08
+//@   facet C09, C02, C14, C07, C08, C20, C05
 //@   safety C07
 //@   opt no-frame
+//@   opt old-at-acquire
+//@   ensures [C20:fresh-hit-calls-nothing-external] old(cachedAt(c, id)) && (old(cachedRevoked(c, id)) || old(cachedLoadedAt(c, id)) + int(c.policy.RevokeCheckInterval) >= now()) ==> lcalls == old(lcalls) && mk_calls == old(mk_calls)
+//@   ensures [C20:at-most-one-load] lcalls <= old(lcalls) + 1
+//@   ensures [C05,C20:returned-key-confirmed-within-one-interval] err == nil ==> result.CryptoKey.revoked == 1 || cval(c.keys)[ck(id.ID, result.CryptoKey.created)].loadedAt + int(c.policy.RevokeCheckInterval) >= old(now())
 //@   ensures [C09:uncached-key-has-one-reference] err == nil && !cacheowned(result.CryptoKey.secret) ==> owed(result) == 1
 //@   ensures [C09:no-stray-secret] forall s securememory.Secret :: live(s) && !old(live(s)) ==> fresh(s) && (cacheowned(s) || (err == nil && s == result.CryptoKey.secret))
 //@   ensures [C09:cache-ownership-is-kept] forall s securememory.Secret :: old(cacheowned(s)) ==> cacheowned(s)
@@ -437,7 +452,7 @@ package appencryption
 //@   ensures [C09,C08:returns-exactly-one-reference] err == nil ==> owed(result) == old(owed(result)) + 1
 //@   ensures [C09:no-other-reference-moves] forall k *cachedCryptoKey :: k != result || err != nil ==> owed(k) == old(owed(k))
 //@   param loader keyLoader
-//@   requires c != nil && c.rw == 0 && loader != nil
+//@   requires c != nil && c.rw == 0 && loader != nil && c.policy != nil && c.policy.RevokeCheckInterval >= 0
 //@   requires loaderFor(loader, id.ID) && (id.Created != 0 ==> loaderExact(loader))
 //@   ensures [C08:lock-released] c.rw == 0
 //@   ensures [C02:ms-only-grows] msGrows(old(ms), ms)
@@ -445,9 +460,15 @@ package appencryption
 //@   ensures [C02,C14:cache-returns-backed-key] err == nil ==> wfCK(result) && ms[id.ID][result.CryptoKey.created]
 
 //@ func (*keyCache).GetOrLoadLatest
-//@   facet C09, C02, C14, C07, C08
+//@   facet C09, C02, C14, C07, C08, C20, C05, C04
 //@   safety C07
 //@   opt no-frame
+//@   opt old-at-acquire
+//@   ensures [C04,C05:returned-key-checked-valid-or-fresh-from-loader] err == nil ==> (result.CryptoKey.revoked != 1 && (exists t int :: old(now()) <= t && t <= now() && !(t > result.CryptoKey.created * 1000000000 + int(c.policy.ExpireKeyAfter)))) || retis(loader, 2, 0, result.CryptoKey)
+//@   ensures [C05,C20:stale-latest-is-re-read] old(cachedAt(c, mk(KeyMeta, id, 0))) && !old(cachedRevoked(c, mk(KeyMeta, id, 0))) && old(cachedLoadedAt(c, mk(KeyMeta, id, 0))) + int(c.policy.RevokeCheckInterval) < old(now()) && err == nil ==> lcalls >= old(lcalls) + 1
+//@   ensures [C20:fresh-valid-hit-calls-nothing-external] old(cachedAt(c, mk(KeyMeta, id, 0))) && !old(cachedRevoked(c, mk(KeyMeta, id, 0))) && old(cachedLoadedAt(c, mk(KeyMeta, id, 0))) + int(c.policy.RevokeCheckInterval) >= now() && !(now() > old(cachedCreated(c, mk(KeyMeta, id, 0))) * 1000000000 + int(c.policy.ExpireKeyAfter)) ==> lcalls == old(lcalls) && mk_calls == old(mk_calls)
+//@   ensures [C20:at-most-two-loads] lcalls <= old(lcalls) + 2
+//@   ensures [C04,C05:invalid-cached-key-is-replaced-by-a-reload] err == nil && retis(loader, 2, 0, result.CryptoKey) ==> lcalls >= old(lcalls) + 1
 //@   ensures [C09:uncached-key-has-one-reference] err == nil && !cacheowned(result.CryptoKey.secret) ==> owed(result) == 1
 //@   ensures [C09:no-stray-secret] forall s securememory.Secret :: live(s) && !old(live(s)) ==> fresh(s) && (cacheowned(s) || (err == nil && s == result.CryptoKey.secret))
 //@   ensures [C09:cache-ownership-is-kept] forall s securememory.Secret :: old(cacheowned(s)) ==> cacheowned(s)
@@ -455,7 +476,7 @@ package appencryption
 //@   ensures [C09,C08:returns-exactly-one-reference] err == nil ==> owed(result) == old(owed(result)) + 1
 //@   ensures [C09:no-other-reference-moves] forall k *cachedCryptoKey :: k != result || err != nil ==> owed(k) == old(owed(k))
 //@   param loader keyLoader
-//@   requires c != nil && c.rw == 0 && loader != nil
+//@   requires c != nil && c.rw == 0 && loader != nil && c.policy != nil && c.policy.RevokeCheckInterval >= 0
 //@   requires loaderFor(loader, id)
 //@   ensures [C08:lock-released] c.rw == 0
 //@   ensures [C02:ms-only-grows] msGrows(old(ms), ms)
@@ -545,3 +566,16 @@ package appencryption
 //@   ensures [C05:reflects-loaded-key] err == nil ==> result != nil && result.CryptoKey.created == ret(loader, 1, 0).created && (result.CryptoKey.revoked == 1) == old(ret(loader, 1, 0).revoked == 1)
 //@   ensures [C05:entry-stamped-with-reload-time] err == nil ==> (forall id string, cr int64 :: id == meta.ID && cr == result.CryptoKey.created ==> cdom(c.keys)[ck(id, cr)] && cval(c.keys)[ck(id, cr)].key == result && cval(c.keys)[ck(id, cr)].loadedAt >= old(now()) && cval(c.keys)[ck(id, cr)].loadedAt <= now())
 //@   ensures [C05:latest-alias-follows] err == nil && meta.Created == 0 ==> ck(meta.ID, 0) in c.latest && c.latest[ck(meta.ID, 0)].Created == result.CryptoKey.created && c.latest[ck(meta.ID, 0)].ID == meta.ID
+
+// =====================================================================================================
+// C04 / C05 / C20: time. Each cache method is specified on its critical section (old = right after the first
+// acquisition); now() is the clock at exit, old(now()) the clock at that acquisition; the clock never decreases.
+// slotOf / cached* describe the entry a lookup for `meta` lands on (through the latest alias for Created == 0).
+// =====================================================================================================
+
+//@ spec fn slotOf(c *keyCache, meta KeyMeta) string = if meta.Created == 0 && ck(meta.ID, 0) in c.latest then ck(c.latest[ck(meta.ID, 0)].ID, c.latest[ck(meta.ID, 0)].Created) else ck(meta.ID, meta.Created)
+//@ spec fn cachedAt(c *keyCache, meta KeyMeta) bool = cdom(c.keys)[slotOf(c, meta)]
+//@ spec fn cachedLoadedAt(c *keyCache, meta KeyMeta) int = cval(c.keys)[slotOf(c, meta)].loadedAt
+//@ spec fn cachedRevoked(c *keyCache, meta KeyMeta) bool = cval(c.keys)[slotOf(c, meta)].key.CryptoKey.revoked == 1
+//@ spec fn cachedCreated(c *keyCache, meta KeyMeta) int64 = cval(c.keys)[slotOf(c, meta)].key.CryptoKey.created
+
